@@ -297,6 +297,55 @@ def run_history_sweep(case, seed, R):
     R.outcome('sweep:' + conv)
 
 
+# ---------------------------------------------------------------------------------------------
+# argument forms: python int, numpy int32, numpy int64 (indices routinely come out of np.arange / array shapes)
+
+FORMS = {'int': int, 'int32': np.int32, 'int64': np.int64}
+
+
+def run_forms_forward(case, seed, R):
+    conv, form, j0, j1 = case['conv'], case['form'], case['j0'], case['j1']
+    fn = FWD[conv]
+    f = getattr(pp, fn)
+    cast = FORMS[form]
+    ref = _ref_table(conv, 2 * j1 + 10)
+    N = Notes(R)
+    for j in range(max(j0, first_index(conv, 0)), j1):
+        out = R.call(f, cast(j), hygiene=False, sig=f'{fn}:{form}:exception')
+        if out is FAILED:
+            continue
+        ok, n, m = as_pair(out)
+        N.check(ok and (n, m) == ref[j], f'{fn}:{form}', lambda: f'{fn}({form}({j})) returned {out!r}; the published order has {ref[j]}')
+    R.nontrivial()
+    R.outcome('forms:' + conv)
+
+
+def run_forms_inverse(case, seed, R):
+    fn_, fm_, a, b = case['form_n'], case['form_m'], case['n0'], case['n1']
+    cn, cm = FORMS[fn_], FORMS[fm_]
+    N = Notes(R)
+    for n in range(a, b):
+        for m in range(-n, n + 1, 2):
+            am = abs(m)
+            g = (n + am) // 2
+            want = {'nm_to_fringe': g * g + 1 + 2 * (g - am) + (1 if m < 0 else 0), 'nm_to_ansi_j': (n * (n + 2) + m) // 2}
+            for name, jw in want.items():
+                out = R.call(getattr(pp, name), cn(n), cm(m), hygiene=False, sig=f'{name}:{fn_},{fm_}:exception')
+                if out is FAILED:
+                    continue
+                j = as_int(out)
+                N.check(j == jw, f'{name}:{fn_},{fm_}', lambda: f'{name}({fn_}({n}), {fm_}({m})) returned {out!r}, expected {jw}')
+            # nm_to_name is a pure index function too: its answer must not depend on the integer type of its arguments
+            # (the names themselves are not part of C11; only form-invariance is judged)
+            if (fn_, fm_) != ('int', 'int'):
+                base = R.call(pp.nm_to_name, n, m, hygiene=False, sig='nm_to_name:int,int:exception')
+                out = R.call(pp.nm_to_name, cn(n), cm(m), hygiene=False, sig=f'nm_to_name:{fn_},{fm_}:exception')
+                if base is not FAILED and out is not FAILED:
+                    N.check(isinstance(out, str) and out == base, f'nm_to_name:{fn_},{fm_}', lambda: f'nm_to_name({fn_}({n}), {fm_}({m})) = {out!r} but {base!r} for python ints')
+    R.nontrivial(b > 1)
+    R.outcome('forms:inverse')
+
+
 def blocks(conv, J, size):
     """Row-aligned blocks covering every index up to the end of the row containing J."""
     out = []
@@ -339,6 +388,10 @@ def plan(tier, seed):
         [{'conv': c, 'first': j} for j in HIST_LARGE for c in FWD]
     JS = 10_000 if tier == 'quick' else 100_000
     hs_cases = [{'conv': c, 'J': JS} for c in ('ansi', 'fringe', 'noll', 'xy')]
+    JF = 2000 if tier == 'quick' else 20000
+    NF = 60 if tier == 'quick' else 150
+    ff_cases = [{'conv': c, 'form': fm, 'j0': j, 'j1': min(j + 500, JF + 1)} for fm in FORMS for c in ('ansi', 'fringe', 'noll', 'xy') for j in range(0, JF + 1, 500)]
+    fi_cases = [{'form_n': f1, 'form_m': f2, 'n0': a, 'n1': min(a + 20, NF + 1)} for f1 in FORMS for f2 in FORMS for a in range(0, NF + 1, 20)]
     cover = ', '.join(f'{c}: j <= {per[c][0]} (rows <= {per[c][1]})' for c in per)
     return [
         ScopeUnit('index_blocks', cases, run_block,
@@ -350,6 +403,11 @@ def plan(tier, seed):
                   'process without reloading or clearing anything; both answers must equal the brute-force published order (a map that keeps memo tables / search hints between calls fails here)'),
         ScopeUnit('history_sweeps', hs_cases, run_history_sweep,
                   f'per map, in one process: every index up to {JS} ascending, then descending, then ascending again, then in a scattered (stride 7919 mod J) order; every answer against the published order', chunk=1),
+        ScopeUnit('forms_forward', ff_cases, run_forms_forward,
+                  f'argument forms: every index j <= {JF} of the four forward maps given as python int, np.int32 and np.int64; the answer must be the published order (integer pair)'),
+        ScopeUnit('forms_inverse', fi_cases, run_forms_inverse,
+                  f'argument forms: every valid (n,m) with n <= {NF} through nm_to_fringe and nm_to_ansi_j with n and m independently given as python int, np.int32, np.int64 (all 9 '
+                  'combinations) against exact integer closed forms; nm_to_name (a pure index function) must return the same string for every form as for python ints'),
         ScopeUnit('nm_rows', row_cases, run_rows,
                   f'every valid (n,m) with n <= {NR}: nm_to_fringe and nm_to_ansi_j against exact integer closed forms, and fringe_to_nm / ansi_j_to_nm of the result returns (n,m)'),
     ]
